@@ -14,6 +14,7 @@ for h in hs:
 if tier != "quick":
     h130 = H("verifC16Wide130", "130 output bits (three machine words): one returned label (arbitrary index) xored with an arbitrary 16-byte mask")
     h130.no_anfcheck = True
+    h130.flags = h130.flags + ["-bigw", "192"]
     hs.append(h130)
 sys.exit(run_property(
     "C16", tier, hs, "other",
